@@ -201,6 +201,7 @@ type StoreH struct {
 	Disk   int // -1: memory only
 	Snap   bool
 	Parent int
+	Origin int // snapshots: id of the writable store at the root of the snapshot chain
 	Closed bool
 	Stale  bool // must not be used any more (documented), not audited
 	M      MState
@@ -243,6 +244,7 @@ type World struct {
 	Stats  *RunStats
 	OpIdx  int
 	opIOSnap map[int]map[byte]int
+	curFaults []Fault
 	RecordIO bool
 	OpIO     []map[int]map[byte]int // per top-level op: disk -> call class -> count
 	sub    int
@@ -259,6 +261,7 @@ type World struct {
 	CheckTree   bool // C13 tree oracle on audits
 	CheckFree   bool // C10 hooked oracle
 	CheckLedger bool // C15
+	CheckPins   bool // C18/C10: version pins released once nothing is in flight
 	AdvValues   bool // the generator plants root-record look-alikes in values
 	Trace       []Op
 	Aborted     bool // run ended early without a verdict
@@ -281,7 +284,11 @@ func NewWorld(prop string) *World {
 
 func (w *World) disk(i int) *SimDisk {
 	for len(w.Disks) <= i {
-		w.Disks = append(w.Disks, NewSimDisk(len(w.Disks), w.Env))
+		d := NewSimDisk(len(w.Disks), w.Env)
+		// a disk created inside an operation (CopyTo destination) takes
+		// part in that operation's fault plan
+		d.BeginOp(w.curFaults)
+		w.Disks = append(w.Disks, d)
 		w.Files = append(w.Files, &MFile{})
 		w.durable = append(w.durable, 0)
 	}
@@ -571,6 +578,7 @@ func (w *World) clearFaults() {
 	if w.RecordIO && w.opIOSnap == nil {
 		w.opIOSnap = w.ioCounts()
 	}
+	w.curFaults = nil
 	for _, d := range w.Disks {
 		d.BeginOp(nil)
 	}
